@@ -277,6 +277,20 @@ CallTakeDest(m, d) ==
   /\ hist' = H([a |-> "TakeDest", m |-> m, d |-> d])
   /\ UNCHANGED devs
 
+\* remote/connect.go:connectionForDomain: the message carries REQUIRETLS and the next hop
+\* cannot satisfy it (no authenticated TLS / MX): the attempt is refused with 550 5.7.30
+\* before the destination limit is touched
+CallTakeDestRefused(m, d) ==
+  /\ Remote /\ phase = "run" /\ Ready /\ pc[m] = "idle" /\ held[m].msg /\ d \notin held[m].dst
+  /\ pc' = [pc EXCEPT ![m] = "r_fail"]
+  /\ arg' = [arg EXCEPT ![m].d = d]
+  /\ exp' = [exp EXCEPT ![m] = FALSE]
+  /\ age' = [age EXCEPT ![m] = 0]
+  /\ res' = [res EXCEPT ![m] = "refused"]
+  /\ obs' = ObsCall(obs, m, "TakeDest", arg[m].ip, arg[m].src, d)
+  /\ hist' = H([a |-> "TakeDest", m |-> m, d |-> d, reqtls |-> TRUE])
+  /\ UNCHANGED <<cfg, held, ops, sem, tab, fresh, extra, xfresh, devs, phase>>
+
 CallRelDest(m, d) ==
   /\ ~Remote /\ phase = "run" /\ Ready /\ pc[m] = "idle" /\ d \in held[m].dst
   /\ Enter(m, "x_dst", [arg[m] EXCEPT !.d = d], "RelDest")
@@ -428,6 +442,7 @@ Next ==
   \/ \E m \in Msgs : Step(m) \/ Return(m)
   \/ \E m \in Msgs, ip \in IPs, src \in Srcs : CallTakeMsg(m, ip, src)
   \/ \E m \in Msgs, d \in Dsts : CallTakeDest(m, d) \/ CallRelDest(m, d) \/ MailReject(m, d)
+                                  \/ CallTakeDestRefused(m, d)
   \/ \E m \in Msgs : CallEnd(m) \/ EndDst(m) \/ PipeReject(m)
   \/ \E m \in Msgs, src2 \in Srcs : CallRelMsg(m, src2)
   \/ Tick \/ Minute
